@@ -5,7 +5,7 @@
 From Coq Require Import List ZArith QArith Bool.
 Import ListNotations.
 Require Import QV.C09.Model QV.C09.Corr QV.C09.Proofs QV.C09.Proofs2 QV.C09.Proofs3 QV.C09.Proofs4 QV.C09.Proofs5 QV.C09.Proofs6
-               QV.C09.Proofs7 QV.C09.Proofs8 QV.C09.Proofs9.
+               QV.C09.Proofs7 QV.C09.Proofs8 QV.C09.ProofsR QV.C09.Proofs9.
 
 (* every freshly constructed tree (Loop(...) with nested children, any counts / waveforms / measurements) satisfies Inv *)
 Theorem C09_init : forall t, sInv (init_state t).
@@ -141,18 +141,46 @@ Theorem C09_encapsulate_preserves : forall h r x h' res,
 Proof. exact encapsulate_inv. Qed.
 Print Assumptions C09_encapsulate_preserves.
 
-(*MOREOPS*)
+(* cleanup(actions), both actions in any combination, any depth: recursive calls on the children (each resets the caches
+   of its ancestors), slice assignment of the kept children, merge *)
+Theorem C09_cleanup_preserves : forall r fuel vctr rm mg x h h' res,
+  Inv h r -> reach h r x -> cleanup fuel vctr rm mg x h = (h', res) -> ok_result res -> Inv h' r.
+Proof. intros r fuel vctr rm mg x h h' res I R H OK. eapply (cleanup_inv r); eauto. Qed.
+Print Assumptions C09_cleanup_preserves.
 
-(* one step / any finite history over the operations proved so far, arbitrary target paths and arguments *)
-Theorem C09_step_partial : forall s o s' out,
-  sInv s -> proved_op2 o = true -> step s o = (s', out) -> out_ok out -> sInv s'.
-Proof. exact step_partial2. Qed.
-Print Assumptions C09_step_partial.
+(* reverse_inplace: children lists reversed and renumbered at every level (the recomputed duration is the same up to ==
+   under list reversal, so NO cache has to be invalidated), leaf waveforms reversed, windows mirrored (reads
+   body_duration, which memoises) *)
+Theorem C09_reverse_preserves : forall r fuel x h h' res,
+  Inv h r -> reach h r x -> reverse_inplace fuel x h = (h', res) -> ok_result res -> Inv h' r.
+Proof. intros r fuel x h h' res I R H OK. eapply (reverse_inv r); eauto. Qed.
+Print Assumptions C09_reverse_preserves.
 
-Theorem C09_history_partial : forall ops s,
-  sInv s -> forallb proved_op2 ops = true -> run_ok s ops -> sInv (run s ops).
-Proof. exact history_partial2. Qed.
-Print Assumptions C09_history_partial.
+(* roll_constant_waveforms (after repairs 239f058 / 36dc22a): count and waveform of a constant leaf are rewritten through
+   the private fields, only the leaf's own cache is reset: correct because duration x count of the leaf is unchanged
+   (smallest_factor_ge returns a divisor).  Domain: minimal_waveform_quanta >= 1. *)
+Theorem C09_roll_preserves : forall r fuel mq q sr x h h' res,
+  (1 <= mq)%Z -> Inv h r -> reach h r x -> roll fuel mq q sr x h = (h', res) -> ok_result res -> Inv h' r.
+Proof. intros r fuel mq q sr x h h' res L I R H OK. eapply (roll_inv r); eauto. Qed.
+Print Assumptions C09_roll_preserves.
+
+(* ---- one step / every finite history over the WHOLE operation alphabet, arbitrary target paths and arguments, inside the
+   argument domain guard_C09_args (slice step None or 1; minimal_waveform_quanta >= 1) ------------------------------------ *)
+Theorem C09_step : forall s o s' out,
+  sInv s -> guard_C09_args o = true -> step s o = (s', out) -> out_ok out -> sInv s'.
+Proof. exact step_all. Qed.
+Print Assumptions C09_step.
+
+Theorem C09_history : forall ops s,
+  sInv s -> forallb guard_C09_args ops = true -> run_ok s ops -> sInv (run s ops).
+Proof. exact history_all. Qed.
+Print Assumptions C09_history.
+
+(* from any constructed tree *)
+Theorem C09_history_from_init : forall t ops,
+  forallb guard_C09_args ops = true -> run_ok (init_state t) ops -> sInv (run (init_state t) ops).
+Proof. intros t ops G OK. apply history_all; auto. apply init_inv. Qed.
+Print Assumptions C09_history_from_init.
 
 (* Loop.__eq__ depends on children lists, repetition definitions, waveforms and measurements only: two heaps that agree
    on these (whatever their caches, parent pointers and recorded positions are) give the same answer for every pair *)
@@ -162,14 +190,23 @@ Print Assumptions C09_eq_structure_only.
 
 (* the hypotheses are satisfiable: a one-leaf program satisfies the invariant, and a proved operation runs on it *)
 Theorem C09_nonvacuous : forall w, sInv (leaf_state w) /\
-  out_ok (snd (step (leaf_state w) (OSetRepCount [] 5))) /\ proved_op (OSetRepCount [] 5) = true.
+  out_ok (snd (step (leaf_state w) (OSetRepCount [] 5))) /\ guard_C09_args (OSetRepCount [] 5) = true.
 Proof. intros w; split; [apply leaf_state_inv|split; [exact I|reflexivity]]. Qed.
 Print Assumptions C09_nonvacuous.
 
-(* ---- the full statement (open for the structural operations: tested by the correspondence check only) ------------------ *)
+(* ---- still open: the same statements with extended slices (explicit step other than 1) admitted; tested by the
+   correspondence check only -------------------------------------------------------------------------------------------- *)
+Definition roll_domain (o : op) : bool := match o with ORoll _ mq _ _ => (1 <=? mq)%Z | _ => true end.
 Definition C09_step_statement : Prop := forall s o s' out,
-  sInv s -> step s o = (s', out) -> out_ok out -> sInv s'.
-Definition C09_history_statement : Prop := forall ops s, sInv s -> run_ok s ops -> sInv (run s ops).
+  sInv s -> roll_domain o = true -> step s o = (s', out) -> out_ok out -> sInv s'.
+Definition C09_history_statement : Prop := forall ops s,
+  sInv s -> forallb roll_domain ops = true -> run_ok s ops -> sInv (run s ops).
+(* open: every tree the user holds (the program and every node that dropped out of it) keeps the invariant under
+   operations on any of them (fstep); tested by the correspondence check only *)
+Definition C09_forest_statement : Prop := forall ops fs,
+  sInv (f_main fs) -> f_held fs = [] -> let fs' := frun fs ops in
+  sInv (f_main fs') /\ forall m, In m (f_held fs') -> in_tree (st_heap (f_main fs')) (st_root (f_main fs')) m = false ->
+                                 Inv (st_heap (f_main fs')) m.
 
 (* the model's own observation passes the check that is applied to the implementation's observation *)
 Definition obs_ok (s : state) : bool :=
